@@ -831,7 +831,8 @@ def repeating_heads(a):
     return out
 
 
-def oracle_docs(a):
+def _oracle_docs_failures(a):
+    """yields every failure, pass by pass (a failure ends its pass)"""
     from lxml import etree
     from xsdata.formats.dataclass.context import XmlContext
     from xsdata.formats.dataclass.parsers import XmlParser
@@ -843,16 +844,32 @@ def oracle_docs(a):
     try:
         schema = etree.XMLSchema(etree.fromstring(xsd.encode()))
     except etree.XMLSchemaParseError:
-        return None  # not a valid schema (e.g. non-deterministic content model): outside the property
+        return  # not a valid schema (e.g. non-deterministic content model): outside the property
     passes = [({}, order_clause(p, {}))]
     for extra in a.get("configs", []):
         passes.append((extra, order_clause(p, extra)))
-    reference = None
+    state = {}
     for opts, ordered in passes:
         g = CG.run_pipeline({"s.xsd": xsd}, **opts)
         try:
+            yield from _one_pass(g, opts, ordered, a, p, words, types, schema, state)
+        finally:
+            g.close()
+
+
+def _one_pass(g, opts, ordered, a, p, words, types, schema, state):
+    from lxml import etree
+    from xsdata.formats.dataclass.context import XmlContext
+    from xsdata.formats.dataclass.parsers import XmlParser
+    from xsdata.formats.dataclass.parsers.config import ParserConfig
+    from xsdata.formats.dataclass.serializers import XmlSerializer
+
+    reference = state.get("reference")
+    if True:
+        if True:
             if g.error is not None:
-                return f"generation failed ({opts}): {type(g.error).__name__}: {g.error}"
+                yield f"generation failed ({opts}): {type(g.error).__name__}: {g.error}"
+                return
             R = g.classes()["R"]
             ctx = XmlContext()
             parser = XmlParser(context=ctx, config=ParserConfig(fail_on_unknown_properties=True, fail_on_unknown_attributes=True, fail_on_converter_warnings=True))
@@ -864,26 +881,40 @@ def oracle_docs(a):
                 try:
                     obj = parser.from_string(doc, R)
                 except Exception as e:  # noqa: BLE001
-                    return f"schema-valid document {doc} rejected ({opts}): {type(e).__name__}: {e}"
+                    yield f"schema-valid document {doc} rejected ({opts}): {type(e).__name__}: {e}"
+                    continue
                 out = XmlSerializer(context=ctx).render(obj)
                 back = etree.fromstring(out.encode())
                 got = [(etree.QName(c).localname, c.text) for c in back]
                 exp = list(zip(w, G.word_values(w, types)))
                 if sorted(got) != sorted(exp):
-                    return f"document {doc} re-serialised with other content ({opts}): {out}"
+                    yield f"document {doc} re-serialised with other content ({opts}): {out}"
+                    continue
                 if ordered:
                     if got != exp:
-                        return f"document {doc} re-serialised in another element order ({opts}): {out}"
+                        yield f"document {doc} re-serialised in another element order ({opts}): {out}"
+                        continue
                     if not schema.validate(back):
-                        return f"document {doc} re-serialised as {out}, which is not schema-valid ({opts})"
+                        yield f"document {doc} re-serialised as {out}, which is not schema-valid ({opts})"
+                        continue
                 outs.append(sorted(got))
             if reference is None:
-                reference = outs
+                state["reference"] = reference = outs
             elif outs != reference and not opts.get("compound_fields"):
-                return f"output-only options {opts} change the documents produced"
-        finally:
-            g.close()
-    return None
+                yield f"output-only options {opts} change the documents produced"
+
+
+def oracle_docs(a):
+    """the first failure that no listed finding covers; else the first failure; else None. (A covered failure of
+    one configuration must not hide an uncovered failure of another.)"""
+    first = None
+    cov = covered_subst if "subs" in a else covered_docs
+    for msg in _oracle_docs_failures(a):
+        if first is None:
+            first = msg
+        if not cov(a, msg):
+            return msg
+    return first
 
 
 OUTPUT_ONLY = [
@@ -1044,7 +1075,7 @@ def covered_gschema(a, msg):
     return None
 
 
-def oracle_attr_docs(a):
+def _oracle_attr_docs_failures(a):
     """use/default/fixed: whatever a schema-valid element carries for an attribute declaration is accepted by
     the strict parser and read as the schema-normalized value (the value given, else default/fixed, else nothing);
     elements with default/fixed and every occurrence range keep their children through the round trip"""
@@ -1059,11 +1090,12 @@ def oracle_attr_docs(a):
     try:
         schema = etree.XMLSchema(etree.fromstring(xsd.encode()))
     except etree.XMLSchemaParseError:
-        return None
+        return
     g = CG.run_pipeline({"s.xsd": xsd}, **a.get("config", {}))
     try:
         if g.error is not None:
-            return f"generation failed: {type(g.error).__name__}: {g.error}"
+            yield f"generation failed: {type(g.error).__name__}: {g.error}"
+            return
         R = g.classes()["R"]
         ctx = XmlContext()
         parser = XmlParser(context=ctx, config=ParserConfig(fail_on_unknown_properties=True, fail_on_unknown_attributes=True, fail_on_converter_warnings=True))
@@ -1077,7 +1109,8 @@ def oracle_attr_docs(a):
             try:
                 obj = parser.from_string(doc, R)
             except Exception as e:  # noqa: BLE001
-                return f"schema-valid document {doc} rejected: {type(e).__name__}: {e}"
+                yield f"schema-valid document {doc} rejected: {type(e).__name__}: {e}"
+                continue
             given = dict(doc_spec["attrs"])
             for i, d in enumerate(decls):
                 if d["kind"] != "attribute" or d["use"] == "prohibited":
@@ -1087,13 +1120,15 @@ def oracle_attr_docs(a):
                     want = d["default"] if d["default"] is not None else d["fixed"]
                 got = getattr(obj, fields[f"d{i}"]) if f"d{i}" in fields else None
                 if got != want:
-                    return f"document {doc}: attribute d{i} ({d}) read as {got!r}, schema-normalized value {want!r}"
+                    yield f"document {doc}: attribute d{i} ({d}) read as {got!r}, schema-normalized value {want!r}"
+                    continue
             out = XmlSerializer(context=ctx).render(obj)
             back = etree.fromstring(out.encode())
             exp_kids = [(f"d{i}", v) for i, vals in doc_spec["elems"] for v in vals]
             got_kids = [(etree.QName(c).localname, None if c.get("{%s}nil" % XSI) == "true" else (c.text or "")) for c in back]
             if got_kids != exp_kids:
-                return f"document {doc} re-serialised with other children: {out}"
+                yield f"document {doc} re-serialised with other children: {out}"
+                continue
 
             def norm(attrib):
                 m = {k: v for k, v in attrib.items()}
@@ -1105,16 +1140,29 @@ def oracle_attr_docs(a):
                 return m
 
             if norm(back.attrib) != norm({f"d{i}": v for i, v in doc_spec["attrs"]}):
-                return f"document {doc} re-serialised with other attributes (after defaults): {out}"
+                yield f"document {doc} re-serialised with other attributes (after defaults): {out}"
+                continue
             if not schema.validate(back):
-                return f"document {doc} re-serialised as {out}, which is not schema-valid"
+                yield f"document {doc} re-serialised as {out}, which is not schema-valid"
+                continue
     finally:
         g.close()
-    return None
+    return
 
 
 XSI = "http://www.w3.org/2001/XMLSchema-instance"
 
+
+
+def oracle_attr_docs(a):
+    """the first failure no listed finding covers, else the first failure, else None"""
+    first = None
+    for msg in _oracle_attr_docs_failures(a):
+        if first is None:
+            first = msg
+        if not covered_attr_docs(a, msg):
+            return msg
+    return first
 
 def covered_attr_docs(a, msg):
     """known findings about xsi:nil (both None in the object): an absent optional nillable element is written as
@@ -1244,10 +1292,21 @@ def gen_derived(rng, tier):
 def gen_subst_docs(rng, tier):
     """element references whose elements head substitution groups: in the documents every occurrence of a
     reference is the head or a (transitive) member of its group"""
+    # the shapes the order clause speaks of, with compound fields: a repeating top-level sequence of single
+    # elements one of which has substitutes; a repeating reference with substitutes
+    yield {**SUBST_ORDER_WITNESS, "words": [["m1", "c", "d", "c"], ["d", "c"], []], "configs": [{"compound_fields": True}]}
+    yield {"particle": {"seq": [1, 1, [{"elem": ["x", 1, 1]}, {"elem": ["d", 0, MAXSIZE]}]]}, "refs": ["d"], "subs": [["m1", "d"], ["m2", "m1"]],
+           "words": [["x", "m2", "d", "m1", "d"], ["x"]], "types": None, "configs": [{"compound_fields": True}]}
     n = 0
     while n < n_cases(tier, 60, 100000):
         n += 1
         a = gen_subst_case(rng)
+        if a is not None and n % 3 == 0:
+            # a repeating top-level sequence of references, each exactly once per iteration
+            names = G.particle_names(a["particle"])[:3]
+            a["particle"] = {"seq": [rng.choice([0, 1]), MAXSIZE, [{"elem": [x, 1, 1]} for x in dict.fromkeys(names)]]}
+            a["refs"] = list(dict.fromkeys(names))
+            a["subs"] = [[m, h] for m, h in a["subs"] if h in a["refs"] or h in {x for x, _ in a["subs"]}] or [["m1", a["refs"][0]]]
         if a is None or not a["subs"]:
             continue
         heads = {}
@@ -1264,7 +1323,7 @@ def gen_subst_docs(rng, tier):
         for _ in range(5):
             w = G.sample_word(rng, a["particle"])
             words.append([rng.choice(closure(x)) if x in a["refs"] else x for x in w])
-        cfgs = [{"compound_fields": True}] if rng.random() < 0.3 else []
+        cfgs = [{"compound_fields": True}] if rng.random() < 0.6 else []
         yield {"particle": a["particle"], "refs": a["refs"], "subs": a["subs"], "words": words, "types": None, "configs": cfgs}
 
 
@@ -1278,7 +1337,7 @@ def covered_subst(a, msg):
     return None
 
 
-def oracle_ns_docs(a):
+def _oracle_ns_docs_failures(a):
     """namespaces and forms: an instance that carries every declared child and attribute under the name the schema
     gives it (own reference computation, document validated by lxml) parses under strict settings and comes back
     with the same expanded names"""
@@ -1300,11 +1359,12 @@ def oracle_ns_docs(a):
         try:
             schema = etree.XMLSchema(etree.parse(os.path.join(d, entry[0])))
         except etree.XMLSchemaParseError:
-            return None
+            return
     g = CG.run_pipeline(srcs, entry=entry, **a.get("config", {}))
     try:
         if g.error is not None:
-            return f"generation failed: {type(g.error).__name__}: {g.error}"
+            yield f"generation failed: {type(g.error).__name__}: {g.error}"
+            return
         R = g.classes()["R"]
         ctxt = XmlContext()
         parser = XmlParser(context=ctxt, config=ParserConfig(fail_on_unknown_properties=True, fail_on_unknown_attributes=True, fail_on_converter_warnings=True))
@@ -1316,17 +1376,31 @@ def oracle_ns_docs(a):
             try:
                 obj = parser.from_string(doc, R)
             except Exception as e:  # noqa: BLE001
-                return f"schema-valid document {doc} rejected: {type(e).__name__}: {e}"
+                yield f"schema-valid document {doc} rejected: {type(e).__name__}: {e}"
+                continue
             out = XmlSerializer(context=ctxt).render(obj)
             back = etree.fromstring(out.encode())
             if back.tag != src.tag or [(c.tag, c.text) for c in back] != [(c.tag, c.text) for c in src] or dict(back.attrib) != dict(src.attrib):
-                return f"document {doc} re-serialised under other names: {out}"
+                yield f"document {doc} re-serialised under other names: {out}"
+                continue
             if not schema.validate(back):
-                return f"document {doc} re-serialised as {out}, which is not schema-valid"
+                yield f"document {doc} re-serialised as {out}, which is not schema-valid"
+                continue
     finally:
         g.close()
-    return None
+    return
 
+
+
+def oracle_ns_docs(a):
+    """the first failure no listed finding covers, else the first failure, else None"""
+    first = None
+    for msg in _oracle_ns_docs_failures(a):
+        if first is None:
+            first = msg
+        if not covered_ns(a, msg):
+            return msg
+    return first
 
 def gen_ns_docs(rng, tier):
     n = 0
